@@ -16,6 +16,10 @@ META = {
         "text": "compareData is shown to be the strict length-then-lexicographic order on all buffers up to 3 words (reference definition, antisymmetry, transitivity), and one inductive step on the real shrinker.accept from every state a run can produce shows: an accepted candidate is strictly smaller, fails at the same site (traceback), and replays to the same error; a rejected candidate changes nothing. shrink()'s passes change state only through accept, so the step covers any number of rounds and any deadline; well-foundedness of short-lex is a stated mathematical fact.",
         "note": _ENGINE_NOTE,
     },
+    "C01": {
+        "text": "Three obligations on the real code whose conjunction is the statement: (1) bounded symbolic model checking of checkTB/doCheck/shrink end to end with a symbolic deterministic program, symbolic PRNG words and (thorough) a symbolic clock: whenever Errorf is called some executed case falsified, the final replay falsifies with the named failure, its logged draws are the values it received, and 'flaky' never appears; (2) the inductive step on shrinker.accept (shared with C05): whatever buffer the shrinker holds replays to the error it is reported with, for any number of rounds and any deadline; (3) prune/replay equivalence (shared with C04) for the recording handed to the shrinker.",
+        "note": _ENGINE_NOTE,
+    },
     "C04": {
         "text": "Bounded symbolic model checking of record -> prune -> replay on the real streams, repeat/find/rejection loops and generators: for every recording of up to 10..16 symbolic words (any number of rejected attempts and forced stops inside the bound) the pruned recording replays to the same values, consumes every word and re-records to itself. Seed determinism is covered by C07's two-run harness.",
         "note": _ENGINE_NOTE,
